@@ -380,8 +380,13 @@ func main() {
 		}
 		var rf struct {
 			Cases []struct {
-				P     uint32   `json:"p"`
-				Items []string `json:"items"`
+				P      uint32   `json:"p"`
+				Items  []string `json:"items"`
+				Family string   `json:"range_family"`
+				Base   uint64   `json:"range_base"`
+				Fixed  uint64   `json:"range_fixed"`
+				N      int      `json:"range_n"`
+				State  string   `json:"register_state"`
 			} `json:"cases"`
 		}
 		if err := json.Unmarshal(raw, &rf); err != nil {
@@ -389,6 +394,14 @@ func main() {
 		}
 		for _, c := range rf.Cases {
 			if c.P == 0 {
+				continue
+			}
+			if c.N > 0 { // a large-cardinality range: items are described, not listed
+				rangeCheck(rep, c.P, c.Family, c.Base, c.Fixed, c.N, add, fail)
+				continue
+			}
+			if c.State != "" { // a register state given as bytes
+				stateCheck(rep, c.P, vh.UnHex(c.State), 0, add, fail)
 				continue
 			}
 			ct := &caseT{p: c.P, mode: "replay"}
@@ -446,6 +459,7 @@ func main() {
 	// ---- 4. sampled error bound + search for D30 (implementation only)
 	if env.Replay == "" {
 		sampleEstimates(env, rep, rng, fail)
+		largeCardinalities(env, rep, rng, add, fail)
 		d30Witness(rep, invOK, fail)
 		if invOK {
 			linearSweep(env, rep, add, fail)
@@ -1582,4 +1596,218 @@ func linearSweep(env *vh.Env, rep *vh.Report, add func(pending), fail func(kind,
 	wg.Wait()
 	rep.CountN("linear-counting-sweep", total)
 	rep.Evaluations += total
+}
+
+// ---------------------------------------------------------------- large cardinalities: no empty register, raw estimator
+
+// refEstimate is the algorithm's estimate written out independently of the library:
+// E = alpha_m·m² / Σ 2^-M[j]; linear counting m·ln(m/V) if E ≤ 2.5·m and V ≠ 0; rounded half up.
+func refEstimate(p uint32, regs []uint32) (est float64, raw bool) {
+	m := float64(uint64(1) << p)
+	var alpha float64
+	switch p {
+	case 4:
+		alpha = 0.673
+	case 5:
+		alpha = 0.697
+	case 6:
+		alpha = 0.709
+	default:
+		alpha = 0.7213 / (1 + 1.079/m)
+	}
+	sum := 0.0
+	zeros := 0
+	for _, r := range regs {
+		sum += 1 / float64(uint64(1)<<r)
+		if r == 0 {
+			zeros++
+		}
+	}
+	e := alpha * m * m / sum
+	if e <= 2.5*m && zeros != 0 {
+		return m * math.Log(m/float64(zeros)), false
+	}
+	return e, true
+}
+
+func closeTo(card uint64, ref float64) bool {
+	return math.Abs(float64(card)-ref) <= 1e-9*ref+0.5000001
+}
+
+func rangeItem(fam string, base, fixed uint64, i int) item {
+	switch fam {
+	case "seq32": // 32-bit ids base, base+1, … through Offer
+		return item{false, uint64(uint32(base) + uint32(i))}
+	case "seq64": // 64-bit ids through OfferLong
+		return item{true, base + uint64(i)}
+	default: // "hi-only": the upper word counts, the lower word is fixed
+		return item{true, uint64(uint32(base)+uint32(i))<<32 | uint64(uint32(fixed))}
+	}
+}
+
+// rangeCheck offers n distinct consecutive items (described by family/base, not listed) and
+// compares Cardinality() with the true cardinality (sampled bound), with the reference formula on
+// the registers read back from GetBytes() (relative 1e-9) and with the model (BLD line).
+func rangeCheck(rep *vh.Report, p uint32, fam string, base, fixed uint64, n int, add func(pending), fail func(kind, key, summary string, replay interface{})) {
+	var b []byte
+	var card uint64
+	o := vh.Guard(func() {
+		h := hll.NewHyperLogLogInt(p)
+		for i := 0; i < n; i++ {
+			offer(h, rangeItem(fam, base, fixed, i))
+		}
+		b = h.GetBytes()
+		card = h.Cardinality()
+	})
+	replay := map[string]interface{}{"p": p, "range_family": fam, "range_base": base, "range_fixed": fixed, "range_n": n,
+		"how": fmt.Sprintf("offer the %d distinct items rangeItem(%q, base, fixed, i), i = 0..n-1, to a counter of precision %d", n, fam, p)}
+	if !o.OK() {
+		fail("property", "offer:panic", "offering a range of items panicked: "+vh.Clip(o.Panic, 200), replay)
+		return
+	}
+	replay["implementation"] = card
+	stateCheck(rep, p, b, n, add, fail, replay, card)
+}
+
+// stateCheck: a register state (bytes) and, when known, the number n of distinct items that
+// produced it.  card/replay are given by rangeCheck; for a bare state the counter is rebuilt.
+func stateCheck(rep *vh.Report, p uint32, b []byte, n int, add func(pending), fail func(kind, key, summary string, replay interface{}), opt ...interface{}) {
+	var replay map[string]interface{}
+	var card uint64
+	if len(opt) == 2 {
+		replay = opt[0].(map[string]interface{})
+		card = opt[1].(uint64)
+	} else {
+		replay = map[string]interface{}{"p": p, "register_state": vh.Hex(b), "how": "BuildHyperLogLog(register_state).Cardinality()"}
+		nilBuilt := false
+		o := vh.Guard(func() {
+			h := hll.BuildHyperLogLog(b)
+			if h == nil {
+				nilBuilt = true
+				return
+			}
+			card = h.Cardinality()
+		})
+		if !o.OK() || nilBuilt {
+			fail("property", "rebuild:fails", "BuildHyperLogLog of a well-formed register state failed", replay)
+			return
+		}
+		replay["implementation"] = card
+	}
+	_, regs, ok := unpackRegs(b)
+	if !ok {
+		fail("property", "offer:register-not-maximum", "GetBytes() is not a well-formed register state", replay)
+		return
+	}
+	ref, raw := refEstimate(p, regs)
+	replay["reference_formula"] = ref
+	replay["raw_estimator_branch"] = raw
+	m := 1 << p
+	reported := false
+	if n > 0 && !withinBound(p, n, card) {
+		key := "estimate:outside-error-bound"
+		if card >= 1<<62 && zerosOf(b) == 0 {
+			key = keyD30
+		}
+		fail("property", key, fmt.Sprintf("Cardinality() = %d for %d distinct items at precision %d (the algorithm's formula gives %.1f on these registers)", card, n, p, ref), replay)
+		reported = true
+	}
+	if n == 0 && zerosOf(b) == 0 && card*2 < uint64(m) {
+		// every history that reaches a state without empty registers offered at least m distinct items
+		fail("property", "estimate:outside-error-bound", fmt.Sprintf("Cardinality() = %d for a register state of precision %d with no empty register (at least %d distinct items; the algorithm's formula gives %.1f)", card, p, m, ref), replay)
+		reported = true
+	}
+	if !closeTo(card, ref) && !reported {
+		fail("correspondence", "Cardinality:differs-from-reference-formula", fmt.Sprintf("Cardinality() = %d, alpha·m²/Σ2^-M[j] (with the small-range rule) = %.3f", card, ref), replay)
+	}
+	add(pending{line: "BLD " + vh.Hex(b), want: fmt.Sprintf("ok %d %s %d", p, vh.Hex(b), card), c: &caseT{p: p, mode: "state"}, what: "BLD", info: replay})
+}
+
+// largeCardinalities: for every precision, cardinalities 3·m, 8·m, 50·m (thorough: also 200·m) by
+// true offers of consecutive items (cheap on the implementation; the model gets the register
+// state, not the items), and synthetic register states for cardinalities up to 5000·m (ranks near
+// saturation) rebuilt from bytes.
+func largeCardinalities(env *vh.Env, rep *vh.Report, rng *vh.Rng, add func(pending), fail func(kind, key, summary string, replay interface{})) {
+	mults := []int{3, 8, 50}
+	if env.Thorough {
+		mults = append(mults, 200)
+	}
+	fams := []string{"seq32", "seq64", "hi-only"}
+	type job struct {
+		p          uint32
+		fam        string
+		base, fix  uint64
+		n          int
+		state      []byte
+	}
+	var jobs []job
+	k := 0
+	for p := uint32(4); p <= 16; p++ {
+		m := 1 << p
+		for _, mu := range mults {
+			base := rng.U64()
+			if rng.Bool() {
+				base = uint64(rng.Intn(1 << 20))
+			}
+			jobs = append(jobs, job{p: p, fam: fams[k%len(fams)], base: base, fix: rng.U64(), n: mu * m})
+			k++
+		}
+		// synthetic states: register = max of K geometric ranks, K ≈ Poisson(n/m) (K ≥ 1: no empty register)
+		for _, lam := range []float64{3, 8, 50, 1000, 5000} {
+			regs := make([]uint32, m)
+			maxRank := 33 - p
+			for i := range regs {
+				u1 := (float64(rng.U64()>>11) + 0.5) / (1 << 53)
+				u2 := (float64(rng.U64()>>11) + 0.5) / (1 << 53)
+				kk := math.Round(lam + math.Sqrt(lam)*math.Sqrt(-2*math.Log(u1))*math.Cos(2*math.Pi*u2))
+				if kk < 1 {
+					kk = 1
+				}
+				u := (float64(rng.U64()>>11) + 0.5) / (1 << 53)
+				t := math.Ceil(-math.Log2(1 - math.Pow(u, 1/kk)))
+				if t < 1 {
+					t = 1
+				}
+				if t > float64(maxRank) {
+					t = float64(maxRank)
+				}
+				regs[i] = uint32(t)
+			}
+			jobs = append(jobs, job{p: p, state: packRegs(p, regs)})
+		}
+	}
+	var wg sync.WaitGroup
+	sem := make(chan struct{}, 16)
+	for _, j := range jobs {
+		wg.Add(1)
+		sem <- struct{}{}
+		go func(j job) {
+			defer wg.Done()
+			defer func() { <-sem }()
+			if j.state != nil {
+				stateCheck(rep, j.p, j.state, 0, add, fail)
+			} else {
+				rangeCheck(rep, j.p, j.fam, j.base, j.fix, j.n, add, fail)
+			}
+		}(j)
+	}
+	wg.Wait()
+	for _, j := range jobs {
+		if j.state != nil {
+			rep.Count("large:synthetic-state")
+			rep.Case(fmt.Sprintf("state p=%d %s", j.p, fnvBytes(j.state)), true)
+		} else {
+			rep.Count(fmt.Sprintf("large:true-offers:%dm", j.n>>j.p))
+			rep.Case(fmt.Sprintf("range p=%d %s base=%d n=%d", j.p, j.fam, j.base, j.n), true)
+		}
+	}
+}
+
+func fnvBytes(b []byte) string {
+	h := uint64(14695981039346656037)
+	for _, x := range b {
+		h ^= uint64(x)
+		h *= 1099511628211
+	}
+	return strconv.FormatUint(h, 16)
 }
